@@ -303,7 +303,7 @@ def check_case(case, acc):
 def _enum_cases(max_nodes, index, count):
     k = 0
     for shape in shapes.trees_upto(max_nodes):
-        for cls in ("Node", "SlotLM", "SymlinkNode", "SelfLinks", "ShadowData", "EqNode", "FalsyNode", "LenNode", "EqSlotLM", "ListNode", "TupleNode"):
+        for cls in ("Node", "SlotLM", "SymlinkNode", "SelfLinks", "ShadowData", "EqNode", "FalsyNode", "LenNode", "EqSlotLM", "ListNode", "TupleNode", "StrictEqNode", "ViewMix"):
             k += 1
             if k % count == index:
                 yield {"kind": "shape", "shape": forest.to_list(shape), "cls": cls, "via": "parent" if k % 2 else "children"}
